@@ -15,7 +15,6 @@
 //! with different scheduler seeds, (d) by the `purity` binary with the heap
 //! holding the searchers write-protected.
 
-use std::io::Cursor;
 use std::sync::atomic::{AtomicU64, Ordering};
 use std::sync::{Arc, Barrier};
 
@@ -247,9 +246,12 @@ pub fn do_op(w: &World, si: usize, op: Op, ii: usize) -> u64 {
                     }
                 }
                 Op::StreamFind => {
+                    // odd inputs are delivered in short reads so that the
+                    // stream buffer is refilled many times
+                    let sched: [usize; 3] = if ii % 2 == 1 { [7, 3, 64] } else { [0, 0, 0] };
                     macro_rules! go {
                         ($a:expr) => {
-                            match $a.try_stream_find_iter(Cursor::new(&hay[..])) {
+                            match $a.try_stream_find_iter(crate::stream::SchedReader::new(&hay[..], &sched)) {
                                 Err(_) => {
                                     h.str("err");
                                 }
@@ -280,11 +282,12 @@ pub fn do_op(w: &World, si: usize, op: Op, ii: usize) -> u64 {
                 Op::StreamReplace => {
                     let repl: Vec<Vec<u8>> = (0..npat).map(|i| format!("<{}>", i).into_bytes()).collect();
                     let mut out = vec![];
+                    let sched: [usize; 2] = if ii % 2 == 0 { [5, 11] } else { [0, 0] };
                     let r = match s {
-                        S::Top(a) => a.try_stream_replace_all(Cursor::new(&hay[..]), &mut out, &repl),
-                        S::N(a) => a.try_stream_replace_all(Cursor::new(&hay[..]), &mut out, &repl),
-                        S::C(a) => a.try_stream_replace_all(Cursor::new(&hay[..]), &mut out, &repl),
-                        S::D(a) => a.try_stream_replace_all(Cursor::new(&hay[..]), &mut out, &repl),
+                        S::Top(a) => a.try_stream_replace_all(crate::stream::SchedReader::new(&hay[..], &sched), &mut out, &repl),
+                        S::N(a) => a.try_stream_replace_all(crate::stream::SchedReader::new(&hay[..], &sched), &mut out, &repl),
+                        S::C(a) => a.try_stream_replace_all(crate::stream::SchedReader::new(&hay[..], &sched), &mut out, &repl),
+                        S::D(a) => a.try_stream_replace_all(crate::stream::SchedReader::new(&hay[..], &sched), &mut out, &repl),
                     };
                     match r {
                         Ok(()) => {
